@@ -67,6 +67,14 @@ CHECKS = {
         "reference opening times of eq. B.1/B.2.",
         "Annex A values as transcribed in vf/props/c19.py (identical to what the repository's unit tests pin); 2 ns no-verdict window around gate opening times.",
     ),
+    "C09": (
+        "model-based history testing of the certificate library with forged-certificate injection, judged by an independent chain checker; enumerated issuing and acceptance grids",
+        "Operation histories mixing genuine and forged certificates (10+ forgery classes built by signing directly with ecdsa) are applied to the "
+        "real CertificateLibrary/VerifyService; after every operation an independent checker re-verifies every stored AA/AT (issuer present up to "
+        "the configured root, signature, permission containment incl. 'all'); message SUCCESS is checked against ticket permissions and validity; "
+        "the issuing API is enumerated over issuer permissions x chain lengths x subject permissions.",
+        "Trusts asn1tools + the repository's ASN.1 text for encoding and python-ecdsa for signatures; SSP/eeType/regions not examined; one-directional message oracle.",
+    ),
 }
 
 NOT_APPLICABLE = {
